@@ -234,6 +234,27 @@ func VerifC04DefaultsContainers() {
 	vapi.Reach("c04-defaults-containers")
 }
 
+// VerifC04DefaultsAllKinds: a reused V3 target (optional members of every kind WITHOUT an explicit
+// IDL default, plus one enum with a default) pre-filled with arbitrary stale content, decoded
+// from an encoding that carries only the required member: every optional member ends at its
+// default (zero value / empty / the IDL default).
+func VerifC04DefaultsAllKinds() {
+	t := V3{A: 1, Col: Color(vapi.Int32("tcol")), Flag: vapi.Bool("tflag"), F: 1.5, D: 2.5, U: vapi.Uint32("tu"),
+		Mp: map[string]int32{"k": vapi.Int32("tmp")}, Vs: []string{symStr("tvs", 1)}, Bt: vapi.Int8("tbt"), Sh: vapi.Int16("tsh"),
+		Raw: []int8{vapi.Int8("traw")}, Ub: vapi.Uint8("tub"), Col2: Color(vapi.Int32("tcol2"))}
+	v := V1{A: symI32("a", false)}
+	vapi.Check(t.ReadFrom(codec.NewReader(encode(&v))) == nil, "defaults: decoding succeeds")
+	vapi.Check(t.A == v.A, "defaults: required member decoded")
+	vapi.Check(t.Col == 0, "defaults: absent optional enum without default on a reused struct")
+	vapi.Check(!t.Flag, "defaults: absent optional bool on a reused struct")
+	vapi.Check(vapi.And(t.F == 0, t.D == 0), "defaults: absent optional float/double on a reused struct")
+	vapi.Check(vapi.And(t.U == 0, vapi.And(t.Bt == 0, vapi.And(t.Sh == 0, t.Ub == 0))), "defaults: absent optional integers on a reused struct")
+	vapi.Check(len(t.Mp) == 0, "defaults: absent optional map on a reused struct")
+	vapi.Check(vapi.And(len(t.Vs) == 0, len(t.Raw) == 0), "defaults: absent optional vectors on a reused struct")
+	vapi.Check(t.Col2 == Color_BLUE, "defaults: absent optional enum with explicit default on a reused struct")
+	vapi.Reach("c04-defaults-allkinds")
+}
+
 // VerifC04Required: an encoding lacking a required member is rejected.
 func VerifC04Required() {
 	b := codec.NewBuffer()
